@@ -2,12 +2,12 @@ package main
 
 func init() {
 	deliver := Harness{
-		Pkg: "zzdeliver", Func: "VerifC01Deliver", ExtraPkgs: []string{"storage/mem", "message"}, InitPkgs: []string{"storage", "storage/mem", "message"},
-		Quick:    [][]int64{{1, 2, 3}, {2, 2, 3}, {3, 2, 2}, {2, 3, 0}},
-		Thorough: [][]int64{{1, 3, 6}, {2, 3, 6}, {3, 3, 6}, {2, 2, 10}},
-		Unwind:   40,
-		Desc:     "real StoreManager.Deliver + policy + mem.Store: r recipients from a menu (duplicates by case/+ext, discard-listed domain), symbolic store policy, symbolic body bytes; per-mailbox message counts, metadata, byte-exact source (trace headers + body) and size; one stored event per message",
-		Bounds:   "params (naming mode, recipients r, body length <= n); every byte value in the body",
+		Pkg: "zzdeliver", Func: "VerifC01Deliver", ExtraPkgs: []string{"storage/mem", "storage/file", "message"}, InitPkgs: []string{"storage", "storage/mem", "storage/file", "message"},
+		Quick:    [][]int64{{1, 2, 3, 0}, {2, 2, 3, 0}, {3, 2, 2, 0}, {2, 3, 0, 0}, {2, 2, 2, 1}, {1, 2, 3, 1}},
+		Thorough: [][]int64{{1, 3, 6, 0}, {2, 3, 6, 0}, {3, 3, 6, 0}, {2, 2, 10, 0}, {1, 3, 4, 1}, {2, 3, 4, 1}, {3, 2, 6, 1}},
+		Unwind:   40, LoopBounds: fileLoopBounds,
+		Desc:     "real StoreManager.Deliver + policy + mem.Store or file.Store: r recipients from a menu (duplicates by case/+ext, discard-listed domain), symbolic store policy, symbolic body bytes; per-mailbox message counts, metadata, byte-exact source (trace headers + body) and size; one stored event per message",
+		Bounds:   "params (naming mode, recipients r, body length <= n, back-end: 0 memory / 1 file store over the file-system model); every byte value in the body",
 		Assumes:  []string{"enmime header decoding is a model (the delivered message carries no From/To/Subject headers); natively the real enmime parses the real bytes", "asynchronous event listeners are run to completion before the harness reads their effects"},
 	}
 	d1, d2, d16 := deliver, deliver, deliver
